@@ -225,6 +225,8 @@ def regenerate():
          f"def fastqMarker : Nat := {t['fastqMarker']}",
          f"def fastaMarker : Nat := {t['fastaMarker']}",
          f"def fastqLinesPerEntry : Nat := {t['fastqLines']}",
+         "/-- the constants the model writers are run with (driver) and proved about (Props/C03) -/",
+         "def consts : C03.Consts := ⟨fastaLineWidth, fastaMarker, fastqMarker, fastqLineOffsets⟩",
          "", "end Gen.C03", ""]
     return [("BnpVerif/Gen/C03.lean", "\n".join(o))]
 
